@@ -233,9 +233,18 @@ func cmpCalls() int { return int(cmpCounter.Load()) }
 func baseCmp(mode string) string { return strings.TrimSuffix(mode, "x") }
 func isMag(mode string) bool     { return strings.HasSuffix(mode, "x") }
 
+var magTick atomic.Int64
+
 func sign3or(mag bool, ra, rb int) int {
-	if mag { // any strict weak order may return any negative / positive number
-		return (ra - rb) * 7
+	if mag { // any strict weak order may return any negative / positive number: magnitudes 1, 2, 4, ... 2^40 in turn
+		d := 1 << uint(magTick.Add(1)%41)
+		switch {
+		case ra < rb:
+			return -d
+		case ra > rb:
+			return d
+		}
+		return 0
 	}
 	switch {
 	case ra < rb:
